@@ -5,7 +5,7 @@ import fractions
 import z3
 
 from . import loader
-from .core import (REG, RefV, StructV, Ty, VerifError, T_INT, T_FLOAT, T_BOOL, T_ANY, parse_type, sort_of, type_of_value)
+from .core import (REG, RefV, StructV, ArrV, Ty, VerifError, T_INT, T_FLOAT, T_BOOL, T_ANY, parse_type, sort_of, type_of_value)
 from .values import (FuncV, BuiltinV, ClassV, ModuleV, SuperV, LambdaV, ExcV, RangeV, EnumV, ZipV, GenV, Frame,
                      RaiseSig)
 
@@ -475,8 +475,11 @@ class ExprMixin(object):
             return BuiltinV("math." + attr)
         if top in ("random", "copy", "itertools", "struct", "logging", "sys", "typing", "abc", "os", "warnings"):
             return BuiltinV(top + "." + attr)
-        if modname.endswith("_heap") or "._" in modname:
-            return ModuleV(modname + "." + attr)
+        if modname in REG.extern_c:
+            if attr == "lib":
+                return BuiltinV("clibmod:" + REG.extern_c[modname])
+            if attr == "ffi":
+                return BuiltinV("ffi")
         return BuiltinV(modname + "." + attr)
 
     def ev_Attribute(self, node, spec):
@@ -524,6 +527,8 @@ class ExprMixin(object):
             if b.kind in ("dict", "set"):
                 return BuiltinV(b.kind + "." + attr, base)
             if b.kind == "ref":
+                if attr in REG.noop_fields:
+                    return BuiltinV("noop-obj")
                 fty = self.field_type_for(base, attr)
                 if fty is not None:
                     v = ctx.read_field(base, attr, fty)
@@ -550,6 +555,10 @@ class ExprMixin(object):
         if isinstance(base, StructV):
             return base[base.field_index(attr)]
         if isinstance(base, BuiltinV):
+            if base.name.startswith("clibmod:"):
+                return BuiltinV("clib:%s:%s" % (base.name[8:], attr))
+            if base.name == "ffi" and attr == "NULL":
+                return None
             return BuiltinV(base.name + "." + attr, base.recv)
         if isinstance(base, ExcV):
             return base
@@ -725,6 +734,8 @@ class ExprMixin(object):
                 return self.dict_get(base, idx, spec)
         if isinstance(base, str):
             return base[idx]
+        if isinstance(base, ArrV):
+            return ctx.wrap(z3.Select(base.term, self.Z(idx)), base.ety)
         if is_z3(base) and z3.is_array(base):
             return z3.Select(base, self.Z(idx))
         raise VerifError("subscript on %r" % (base,))
